@@ -111,3 +111,40 @@ void json_str(FILE *f, const char *s)
     }
     fputc('"', f);
 }
+
+/* resolve a code address (an allocation site) to the innermost library function name with addr2line (drivers are linked -no-pie) */
+#include <unistd.h>
+const char *mx_addr_func(void *addr, char *buf, size_t n)
+{
+    /* resolve the allocation site to a function name with addr2line (PIE: subtract the load base) */
+    unsigned long base = 0; /* drivers are linked -no-pie: addresses are absolute */
+    char cmd[400], exe[256];
+    FILE *p;
+    ssize_t l;
+    l = readlink("/proc/self/exe", exe, sizeof(exe) - 1);
+    if (l <= 0)
+    {
+        snprintf(buf, n, "?");
+        return buf;
+    }
+    exe[l] = 0;
+    snprintf(cmd, sizeof(cmd), "addr2line -f -i -e %s 0x%lx 2>/dev/null", exe, (unsigned long) addr - base - 1);
+    p = popen(cmd, "r");
+    snprintf(buf, n, "?");
+    if (p)
+    {
+        char line[256];
+        /* with -i the innermost frame comes first; skip allocator shims */
+        while (fgets(line, sizeof(line), p))
+        {
+            line[strcspn(line, "\n")] = 0;
+            if (line[0] && line[0] != '/' && line[0] != '?' && !strstr(line, "psMalloc") && !strstr(line, "__wrap"))
+            {
+                snprintf(buf, n, "%s", line);
+                break;
+            }
+        }
+        pclose(p);
+    }
+    return buf;
+}
